@@ -232,6 +232,10 @@ inline std::vector<Harness> harnesses() {
   h.push_back({"H4b", "served-but-rejected data racing itself and a valid load", {{L("BAD")}, {L("BAD")}, {L("B")}}, {}, true});
   h.push_back({"H5", "no-data names and the UTC static", {{L(F)}, {Op{Op::FIXED, "", 3600}}, {L("UTC"), Op{Op::UTC, "", 0}}}, {}, false});
   // t values: inside different intervals of zone A's table (1907.., 1912.., 1930)
+  // well-formed fixed-offset SHAPE but out of range: not a fixed-offset name, so it goes to the data source
+  const std::string OOR = "Fixed/UTC+25:00:00";
+  h.push_back({"H5b", "out-of-range fixed-shaped name racing itself and a real zone", {{L(OOR)}, {L(OOR)}, {L("A")}}, {}, true});
+  h.push_back({"H5c", "UTC0 / fixed / local_time_zone / default zone", {{L("UTC0"), Op{Op::LOCAL, "", 0}}, {Op{Op::FIXED, "", -1}, L("Fixed/UTC-00:00:01")}, {Op{Op::LOCAL, "", 0}, Op{Op::UTC, "", 0}}}, {}, false});
   h.push_back({"H6", "loads mixed with lookups on the shared Impl",
                {{L("A"), TP(-1900000000LL), CS(-1900000000LL - 18000)}, {L("A"), TP(-1700000000LL), CS(-1700000000LL - 18000), Op{Op::NEXT, "", -1950000000LL}}}, {}, true});
   h.push_back({"H7", "three threads looking up a pre-loaded zone (hint words)",
@@ -248,6 +252,7 @@ inline std::vector<Harness> coarse_harnesses() {
   h.push_back({"H8-AABX", "2 same + valid + failing", {{L("A")}, {L("A")}, {L("B")}, {L("X")}}, {}, true});
   h.push_back({"H8-ABXF", "all different kinds", {{L("A")}, {L("B")}, {L("X")}, {L(F)}}, {}, false});
   h.push_back({"H8-XXAA", "2 failing + 2 valid", {{L("X")}, {L("X")}, {L("A")}, {L("A")}}, {}, true});
+  h.push_back({"H8-OOAB", "2 out-of-range fixed-shaped + 2 valid", {{L("Fixed/UTC+25:00:00")}, {L("Fixed/UTC+25:00:00")}, {L("A")}, {L("B")}}, {}, true});
   return h;
 }
 
@@ -258,7 +263,13 @@ struct Verdict {
   std::string outcome;           // digest of what was observed (for distinct-outcome counting)
 };
 
-inline bool is_fixed_or_utc(const std::string& n) { return n == "UTC" || n == "UTC0" || n.compare(0, 9, "Fixed/UTC") == 0; }
+inline bool is_fixed_or_utc(const std::string& n) {
+  if (n == "UTC" || n == "UTC0") return true;
+  if (n.size() != 18 || n.compare(0, 9, "Fixed/UTC") != 0 || (n[9] != '+' && n[9] != '-') || n[12] != ':' || n[15] != ':') return false;
+  int d[6]; const int p[6] = {10, 11, 13, 14, 16, 17};
+  for (int i = 0; i < 6; ++i) { if (n[p[i]] < '0' || n[p[i]] > '9') return false; d[i] = n[p[i]] - '0'; }
+  return (d[0] * 10 + d[1]) * 3600 + (d[2] * 10 + d[3]) * 60 + d[4] * 10 + d[5] <= 86400;
+}
 
 inline Verdict judge(const Harness& h, const std::vector<Obs>& obs, const std::vector<Obs>& seq) {
   Verdict v;
